@@ -53,6 +53,9 @@ def alphabet(v: int) -> dict[str, tuple]:
 
 
 NAMES = list(alphabet(0))
+# quick tier, configurations other than mem: the ten most collision-prone operations
+QUICK_NAMES = ["create_trial", "create_waiting", "set_param", "user_attr", "claim", "finish", "create_study", "delete_study",
+               "get_all_trials", "get_waiting"]
 # set_param twice on one trial and name is outside the contract (see C01): pair it with others only
 NO_SELF_PAIR = {"set_param"}
 
@@ -66,8 +69,9 @@ def scenarios(tier: str) -> list[tuple]:
             bound = 2 if cfg == "mem" else 1
         else:
             bound = 2 if slow else 3
-        for i, a in enumerate(NAMES):
-            for b in NAMES[i:]:
+        names_cfg = NAMES if (cfg == "mem" or tier == "thorough") else QUICK_NAMES
+        for i, a in enumerate(names_cfg):
+            for b in names_cfg[i:]:
                 if a == b and a in NO_SELF_PAIR:
                     continue
                 out.append((cfg, ((a,), (b,)), bound))
@@ -92,7 +96,7 @@ def scenarios(tier: str) -> list[tuple]:
     # Part B: processes / threads at SQL-statement level on one SQLite file
     for cfg in SQL_CONFIGS:
         bound = 1 if tier == "quick" else 2
-        names = NAMES if (cfg == "rdb-procs" or tier == "thorough") else ["create_trial", "claim", "finish", "user_attr", "get_all_trials", "get_waiting"]
+        names = NAMES if tier == "thorough" else (QUICK_NAMES if cfg == "rdb-procs" else ["create_trial", "claim", "finish", "user_attr", "get_all_trials", "get_waiting"])
         for i, a in enumerate(names):
             for b in names[i:]:
                 if a == b and a in NO_SELF_PAIR:
